@@ -428,6 +428,20 @@ def run(rep, tier="quick", replay=None, evidence_dir=None, collect_only=False):
     rep.analysed["UnionSerializer functions explored (tagflow)"] = nfun
     rep.floor("C02.R5", "index/payload pairings observed in UnionSerializer", len(up), 12)
 
+    # ---------------- R6 the encoders hand whole buffers to the output (C13.R1 instances in the encoders)
+    rep.rule("C02.R6", "the datum encoders write every buffer completely: no partial Write::write whose count is not inspected (C13.R1 instances in encode.rs, util.rs and the serde serializers)")
+    import c13
+    sub13 = common.Report("C13", tier, 0)
+    c13.run(sub13, tier=tier, collect_only=True)
+    n6 = 0
+    for o in sub13.obligations:
+        if o["rule"] == "C13.R1" and (o["instance"].startswith(("encode::", "util::", "serde::ser_schema", "<serde::ser_schema", "bigdecimal::")) or "ser_schema" in o["loc"] or "encode.rs" in o["loc"]):
+            n6 += 1
+            rep.ob("C02.R6", "[C13.R1] " + o["instance"], o["ok"], "the bytes of a value are cut short while the length prefix / index was written in full: the output is not the specified encoding; " + o["detail"], o["loc"])
+    rep.analysed["partial-write obligations imported for the encoders"] = n6
+    # zero instances is the expected state (every sink write is a write_all): make sure the scan sees the sink writes at all
+    rep.floor("C02.R6", "write_all / flush sites on caller sinks seen by the scan", int(sub13.analysed.get("write_all/flush sites on non-memory sinks", 0)), 16)
+
     if collect_only:
         return rep
     rep.floor("C02", "obligations", len(rep.obligations), 110)
